@@ -149,6 +149,7 @@ type CaseFile struct {
 	Imports string // Coq Require lines
 	Ctype   string // Coq type of one case
 	Checker string // Coq function : list Ctype -> list Z (indices of mismatching cases)
+	Extras  [][2]string // further (definition name, Coq function : list Ctype -> list Z) printed the same way
 	cases   []string
 }
 
@@ -177,6 +178,9 @@ func (c *CaseFile) Flush(per int) ([]string, error) {
 		b.WriteString("\n].\n")
 		fmt.Fprintf(&b, "Definition bad := Eval vm_compute in map (fun i => base_index + i) (%s cases).\n", c.Checker)
 		b.WriteString("Print bad.\n")
+		for _, ex := range c.Extras {
+			fmt.Fprintf(&b, "Definition %s := Eval vm_compute in map (fun i => base_index + i) (%s cases).\nPrint %s.\n", ex[0], ex[1], ex[0])
+		}
 		if err := os.WriteFile(filepath.Join(c.Dir, name), []byte(b.String()), 0o644); err != nil {
 			return nil, err
 		}
